@@ -1,7 +1,93 @@
 import ASV.Drv.J
+import ASV.Spec.Parallel
 namespace ASV.Drv.C18
-open Lean ASV ASV.Drv
+open Lean ASV ASV.Drv ASV.Parallel
 
-def handle (_j : Json) : R Json := throw "C18: no model yet"
+/-- a call's outcome: `["ok", v]` | `["err", kind]` -/
+def callOfJson (j : Json) : R (Except String Int) := do
+  match (← asStr (← idx j 0)) with
+  | "ok" => return .ok (← asInt (← idx j 1))
+  | "err" => return .error (← asStr (← idx j 1))
+  | t => throw s!"unknown call outcome {t}"
+
+/-- what `execute` does for one command: `["rc", code, stderr?]` | `["kbd"]` | `["err", kind]` -/
+def execOfJson (j : Json) : R (ExecResult String) := do
+  match (← asStr (← idx j 0)) with
+  | "rc" => return .finished (← asInt (← idx j 1)) (← asBool (← idx j 2))
+  | "kbd" => return .keyboardInterrupt
+  | "err" => return .failed (← asStr (← idx j 1))
+  | t => throw s!"unknown exec outcome {t}"
+
+def eventOfJson (j : Json) : R Event := do
+  match (← asStr (← idx j 0)) with
+  | "done" => return .done (← asNat (← idx j 1))
+  | "timeout" => return .timeout
+  | "died" => return .died (← asNat (← idx j 1))
+  | t => throw s!"unknown event {t}"
+
+def outcomeToJson : Outcome String Int → Json
+  | .returned l => jObj [("ret", jArr (l.map fun | some v => toJson v | none => Json.null))]
+  | .raised (.task e) => jObj [("err", Json.str "task"), ("e", Json.str e)]
+  | .raised .timeout => jObj [("err", Json.str "timeout")]
+  | .raised .workerDied => jObj [("err", Json.str "died")]
+  | .raised .noProcesses => jObj [("err", Json.str "noproc")]
+  | .blocked => jObj [("blocked", toJson true)]
+
+def outcomeOfJson (j : Json) : R (Outcome String Int) := do
+  if let .ok l := arrF j "ret" then
+    let vs ← l.mapM fun x => match x with
+      | .null => pure none
+      | x => do return some (← asInt x)
+    return .returned vs
+  if (boolFD j "blocked" false) then return .blocked
+  match (← strF j "err") with
+  | "task" => return .raised (.task (← strF j "e"))
+  | "timeout" => return .raised .timeout
+  | "died" => return .raised .workerDied
+  | "noproc" => return .raised .noProcesses
+  | t => throw s!"unknown error class {t}"
+
+/-- the exception `child_process` turns a `KeyboardInterrupt` into -/
+def interrupt : String := "RuntimeError:Killed by keyboard interrupt"
+
+def handle (j : Json) : R Json := do
+  let kind ← strF j "kind"
+  let cpus ← natF j "cpus"
+  let cfg ← natF j "config_cpus"
+  let ht ← boolF j "timeout"
+  let evs ← listOf eventOfJson (← fld j "events")
+  let impl? : Option (Outcome String Int) ←
+    match j.getObjVal? "impl" with
+    | .ok x => do pure (some (← outcomeOfJson x))
+    | .error _ => pure none
+  let k := resolveCpus cfg cpus
+  match kind with
+  | "pf" =>
+    let calls ← listOf callOfJson (← fld j "outcomes")
+    let f : Except String Int → Except String Int := id
+    let model := parallelFunction cfg f calls cpus ht evs
+    let m := numChunks calls.length k
+    return jObj [
+      ("model", outcomeToJson model),
+      ("seq", outcomeToJson (sequentialOutcome f calls)),
+      ("spec", toJson ((impl?.map (acceptable cfg f calls cpus ht evs)).getD true)),
+      ("spec_model", toJson (acceptable cfg f calls cpus ht evs model)),
+      ("chunks", toJson m),
+      ("chunksize", toJson (chunkSize calls.length k)),
+      ("scope", toJson (k ≤ 1 || validB m evs))]
+  | "pe" =>
+    let cmds ← listOf execOfJson (← fld j "outcomes")
+    let f := childProcess interrupt
+    let model := parallelExecute cfg f cmds cpus ht evs
+    let m := numChunks cmds.length k
+    return jObj [
+      ("model", outcomeToJson model),
+      ("seq", outcomeToJson (sequentialOutcome f cmds)),
+      ("spec", toJson ((impl?.map (acceptableExecute cfg f cmds cpus ht evs)).getD true)),
+      ("spec_model", toJson (acceptableExecute cfg f cmds cpus ht evs model)),
+      ("chunks", toJson m),
+      ("chunksize", toJson (chunkSize cmds.length k)),
+      ("scope", toJson (k = 0 || validB m evs))]
+  | t => throw s!"unknown case kind {t}"
 
 end ASV.Drv.C18
